@@ -18,6 +18,7 @@ package state
 // lastBasicOK / lastCommitVerified witness the verdicts of Block.ValidateBasic and VerifyCommit on this very block and
 // this very last commit (arguments of VerifyCommit are pinned by the atcall clause).
 //@ func validateBlock
+//@   checks deterministic
 //@   requires wf: block != nil && state.Validators != nil && state.NextValidators != nil && state.LastValidators != nil && len(state.Validators.Validators) <= 2147483647 && len(state.LastValidators.Validators) <= 2147483647
 //@   requires wfl: wfPowers(state.LastValidators) && wfCached(state.LastValidators)
 //@   requires ghosts: lastCommitVerified == 0
@@ -40,3 +41,31 @@ package state
 //@     | (block.Header.Height > state.InitialHeight ==> (block.Header.Time > state.LastBlockTime && block.Header.Time == MedianTime(block.LastCommit, state.LastValidators))) &&
 //@     | (block.Header.Height == state.InitialHeight ==> block.Header.Time == state.LastBlockTime) &&
 //@     | types.EvidenceData.ByteSize(&block.Evidence) <= state.ConsensusParams.Evidence.MaxBytes)
+
+// The transition function computes the next state only from (state, block id, header, ABCI responses, validator
+// updates): structural postconditions, and a syntactic determinism obligation over its static call graph.
+//@ func updateState
+//@   checks deterministic
+//@   requires wf: state.NextValidators != nil && state.Validators != nil && header != nil && abciResponses != nil && abciResponses.EndBlock != nil
+//@   ensures height: result1 == nil ==> (result0.LastBlockHeight == header.Height && result0.LastBlockID == blockID && result0.LastBlockTime == header.Time)
+//@   ensures same: result1 == nil ==> (result0.ChainID == state.ChainID && result0.InitialHeight == state.InitialHeight)
+//@   ensures valchange: result1 == nil ==> result0.LastHeightValidatorsChanged == ite(len(validatorUpdates) > 0, header.Height + 2, state.LastHeightValidatorsChanged)
+//@   ensures paramchange: result1 == nil ==> result0.LastHeightConsensusParamsChanged == ite(abciResponses.EndBlock.ConsensusParamUpdates != nil, header.Height + 1, state.LastHeightConsensusParamsChanged)
+//@   ensures apphash: result1 == nil ==> len(result0.AppHash) == 0
+//@   ensures unchanged_on_error: result1 != nil ==> (result0.LastBlockHeight == state.LastBlockHeight && result0.LastBlockID == state.LastBlockID)
+//@ func ABCIResponsesResultsHash
+//@   trusted
+//@   purefn
+//@   assigns nothing
+
+// A block built by a correct proposer carries exactly the header values validateBlock compares against.
+//@ func State.MakeBlock
+//@   checks deterministic
+//@   requires wf: state.Validators != nil && state.NextValidators != nil && state.LastValidators != nil && len(state.LastValidators.Validators) <= 2147483647 && commit != nil
+//@   ensures header: result0 != nil && result0.Header.Version == state.Version.Consensus && result0.Header.ChainID == state.ChainID && result0.Header.Height == height &&
+//@     | result0.Header.LastBlockID == state.LastBlockID && result0.Header.AppHash == state.AppHash && result0.Header.LastResultsHash == state.LastResultsHash &&
+//@     | result0.Header.ConsensusHash == types.HashConsensusParams(state.ConsensusParams) &&
+//@     | result0.Header.ValidatorsHash == types.ValidatorSet.Hash(state.Validators) && result0.Header.NextValidatorsHash == types.ValidatorSet.Hash(state.NextValidators) &&
+//@     | result0.Header.ProposerAddress == proposerAddress && result0.LastCommit == commit
+//@   ensures time: result0.Header.Time == ite(height == state.InitialHeight, state.LastBlockTime, MedianTime(commit, state.LastValidators))
+//@   ensures hashes: result0.Header.LastCommitHash == types.Commit.Hash(commit) && result0.Header.DataHash == types.Data.Hash(&result0.Data) && result0.Header.EvidenceHash == types.EvidenceData.Hash(&result0.Evidence)
